@@ -163,6 +163,27 @@ pub fn mutate(base: BoxedStrategy<String>) -> BoxedStrategy<String> {
         .boxed()
 }
 
+
+/// `zerv check --format semver` in-process against the independent recogniser: verdict, and
+/// "normalized" exactly when the input is not printed back as it is (a `v` prefix)
+fn check_report(s: &String, cx: &mut Cx) -> Res {
+    let want = osem::parse_v(s).map(|p| (osem::all_numbers_fit_u64(&p), osem::print(&p)));
+    let r = crate::cli::check(&crate::cli::sv(&["--format", "semver", "--", s]));
+    cx.note(|| format!("{s:?} -> {}", r.describe().chars().take(100).collect::<String>()));
+    match (&r, &want) {
+        (crate::cli::Run::Panic(p), _) => fail(format!("zerv check panicked on {s:?}: {p}")),
+        (crate::cli::Run::Ok(t), Some((_, nf))) => {
+            cx.nt();
+            let expect = if nf == s { format!("Version: {s}\n✓ Valid SemVer format") } else { format!("Version: {s}\n✓ Valid SemVer format (normalized: {nf})") };
+            ensure!(t.trim_end() == expect, "zerv check reports {:?} for {s:?}; expected {expect:?}", t.trim_end());
+            Ok(())
+        }
+        (crate::cli::Run::Ok(t), None) => fail(format!("zerv check accepts {s:?}, which is not SemVer 2.0.0: {t:?}")),
+        (_, Some((true, _))) => fail(format!("zerv check rejects the valid SemVer version {s:?}: {}", r.describe())),
+        _ => Ok(()),
+    }
+}
+
 pub fn property() -> Property {
     let e1 = EnumSub::<String>::new(
         "enum-suffix",
@@ -210,6 +231,7 @@ pub fn property() -> Property {
     )
     .floor(0.3);
     // L2: the real binary gives the same verdict (exit status) and report
+    let report = RandomSub::<String>::new("check-report", (60_000, 1_200_000), |_| prop_oneof![3 => valid_semver(), 2 => mutate(valid_semver())].boxed(), check_report).floor(0.1);
     let l2 = RandomSub::<String>::new(
         "cli-check",
         (400, 6_000),
@@ -250,7 +272,7 @@ pub fn property() -> Property {
             "a grammar-valid string whose number exceeds u64 may be rejected (range limit) but must never be accepted and printed differently",
             "cli-check passes strings as one argv element; strings starting with '-' or containing NUL are not sent through the binary",
         ],
-        subs: vec![e1.boxed(), e2.boxed(), r1.boxed(), r2.boxed(), long.boxed(), l2.boxed()],
+        subs: vec![e1.boxed(), e2.boxed(), r1.boxed(), r2.boxed(), long.boxed(), report.boxed(), l2.boxed()],
         known_repro: vec![],
     }
 }
